@@ -15,8 +15,10 @@ import (
 	"github.com/godaddy/asherah/go/appencryption/pkg/persistence"
 	v1persistence "github.com/godaddy/asherah/go/appencryption/plugins/aws-v1/persistence"
 	v2metastore "github.com/godaddy/asherah/go/appencryption/plugins/aws-v2/dynamodb/metastore"
+	"pgregory.net/rapid"
 	"verif/fakes"
 	"verif/kit"
+	"verif/world"
 )
 
 // Names lists the available implementations.
@@ -206,5 +208,28 @@ func New(name string) *Backing {
 			return nil
 		}
 		return b
+	}
+}
+
+// Use makes pct percent of the worlds run over a real metastore implementation: it sets
+// opts.Backing (and plain ids for SQL: VARCHAR(255) refuses the over-long id atoms) and
+// returns the cleanup to defer.
+func Use(t *rapid.T, opts *world.Options, pct int) func() {
+	if rapid.IntRange(0, 99).Draw(t, "realMetastore") >= pct {
+		return func() {}
+	}
+	name := rapid.SampledFrom(Names).Draw(t, "metastore")
+	b := New(name)
+	opts.Backing = b
+	if strings.HasPrefix(name, "sql-") {
+		opts.SimpleIDs = true
+	}
+	kit.Rec.Label("metastore:" + name)
+	return func() {
+		b.Done()
+		if u := b.Unsupported(); len(u) > 0 {
+			fmt.Printf("VERIF-INCONCLUSIVE fake cannot interpret: %v\n", u)
+			t.Fatalf("inconclusive: the fake cannot interpret %v", u)
+		}
 	}
 }
